@@ -208,6 +208,18 @@ def handle : Handler
     match unhex b with
     | some b => some (hexStr (b64Encode b))
     | none => some badArgs
+  | "attr.maxfwd", [h] =>
+    match optArg unhexStr h with
+    | some h => some (exc (outOpt toString) (requestMaxForwards h))
+    | none => some badArgs
+  | "attr.clen", [cl, te] =>
+    match optArg unhexStr cl, optArg unhexStr te with
+    | some cl, some te => some (exc (outOpt toString) (getContentLength cl te))
+    | _, _ => some badArgs
+  | "attr.acrh", [h] =>
+    match optArg unhexStr h with
+    | some h => some (exc (outOpt strList) (requestAccessControlRequestHeaders h))
+    | none => some badArgs
   | "date.fmt", [t] =>
     match natArg t with
     | some t => some (hexStr (Wz.Date.httpDate t))
